@@ -224,7 +224,13 @@ where
     /// Fails if active blob is set or there is no closed blobs
     /// [`restore_active_blob_in_background()`]: struct.Storage.html#method.restore_active_blob_async
     pub async fn try_restore_active_blob(&self) -> Result<()> {
-        self.inner.restore_active_blob().await
+        let dirty_bytes = self.inner.restore_active_blob().await?;
+        // deletion records appended while the blob was closed may still be waiting for the deferred index dump to
+        // sync them; as the active blob it is no longer dumped, so its un-synced bytes are looked at here
+        if self.inner.should_try_fsync(dirty_bytes) {
+            self.observer.try_fsync_data().await;
+        }
+        Ok(())
     }
 
     /// Sets last blob from closed blobs as active if there is no active blobs
@@ -1157,7 +1163,8 @@ where
         self.config.dump_sem()
     }
 
-    pub(crate) async fn restore_active_blob(&self) -> Result<()> {
+    /// Returns the un-synced bytes of the blob that became active
+    pub(crate) async fn restore_active_blob(&self) -> Result<u64> {
         if self.has_active_blob().await {
             return Err(Error::active_blob_already_exists().into());
         }
@@ -1174,8 +1181,9 @@ where
                 blobs.pop()
             };
             if let Some(blob) = blob_opt {
+                let dirty_bytes = blob.file_dirty_bytes();
                 safe.active_blob = Some(Box::new(ASRwLock::new(blob)));
-                Ok(())
+                Ok(dirty_bytes)
             } else {
                 Err(Error::uninitialized().into())
             }
